@@ -192,7 +192,7 @@ def analyse(spec):
             vol = [[0.0] * C for _ in range(R)]
         elif _isnum(iv):
             layout = "scalar"
-            vol = [[float(iv)] * C for _ in range(R)]
+            vol = [[_f(iv)] * C for _ in range(R)]
         elif isinstance(iv, (list, tuple, np.ndarray)):
             nested = to_nested(iv)
             shp = shape_of(nested)
@@ -206,19 +206,19 @@ def analyse(spec):
                     if len(flat) != C:
                         faults.append("percolumn_wrong_length:initial_volumes")
                     else:
-                        vol = [[float(x) for x in flat]]
+                        vol = [[_f(x) for x in flat]]
                 else:
                     layout = {"array": "flat_array", "tuple": "flat_tuple", "list": "flat_list"}[kind]
                     if len(flat) != R * C:
                         faults.append("flat_wrong_length")
                     else:
                         # row-major: element (r, c) is flat[r * C + c]
-                        vol = [[float(flat[r * C + c]) for c in range(C)] for r in range(R)]
+                        vol = [[_f(flat[r * C + c]) for c in range(C)] for r in range(R)]
             elif len(shp) == 2 and not trough and shp == (R, C):
                 if not all(_isnum(x) for row in nested for x in row):
                     raise Silent("non-numeric initial volume")
                 layout = "array2d" if kind == "array" else "nested_" + kind
-                vol = [[float(x) for x in row] for row in nested]
+                vol = [[_f(x) for x in row] for row in nested]
             else:
                 raise Silent(f"initial volumes of shape {shp}")
         else:
@@ -414,6 +414,14 @@ def _as_layout(rng, cls, vol, R, C):
 _NAMEPOOL = ["water", "glucose", "NaOH", "stock A", "x", "medium.1", "p.A01", "A01", "Wasser/Öl", "lw.column_01"]
 
 
+def _f(x):
+    """float(x); a Python integer beyond the float range counts as +-infinity (it is larger than any limit)."""
+    try:
+        return float(x)
+    except OverflowError:
+        return INF if x > 0 else -INF
+
+
 def _names(rng, cls, vol, R, C):
     """Valid names for the non-empty wells (or nothing)."""
     k = rng.random()
@@ -527,6 +535,16 @@ def _poke(rng, spec, vol, R, C, bad_of):
         ints = [int(x) for x in flat]
         spec["initial_volumes"] = {"__ndu16__": ints if (trough or rng.random() < 0.5) else [ints[r * C:(r + 1) * C] for r in range(R)]}
         return
+    beyond_float = any(isinstance(x, int) and abs(x) > 10**308 for x in flat)
+    if beyond_float:
+        # a Python integer that no float can hold: only containers of Python numbers can carry it
+        if len(set(flat)) == 1 and rng.random() < 0.6:
+            spec["initial_volumes"] = flat[0]  # the one volume for every well
+        elif trough:
+            spec["initial_volumes"] = list(flat) if rng.random() < 0.5 else {"__tuple__": flat}
+        else:
+            spec["initial_volumes"] = list(flat) if rng.random() < 0.5 else [list(row) for row in vol]
+        return
     if trough:
         lay = rng.choice(["list", "tuple", "array1d"])
         spec["initial_volumes"] = (
@@ -604,7 +622,7 @@ def _faulty(rng):
         if rng.random() < 0.12:
             # "no upper limit": max_volume = inf is a limit above min_volume; an infinite filling is still not finite
             spec["max_volume"] = mx = INF
-        _poke(rng, spec, vol, R, C, lambda x: rng.choice([mx + 1, mx * 2 + 1, mx + 0.25, math.nextafter(float(mx), INF), INF, 1e12, 10**30, 2**64]))
+        _poke(rng, spec, vol, R, C, lambda x: rng.choice([mx + 1, mx * 2 + 1, mx + 0.25, math.nextafter(float(mx), INF), INF, 1e12, 10**30, 2**64, 10**400]))
     elif fault == "name_empty_well":
         # make sure there is an empty well and name it
         r, c = rng.randrange(R), rng.randrange(C)
